@@ -65,7 +65,9 @@ func (t *zzTransport) record(p []byte) {
 }
 
 func (t *zzTransport) Write(p []byte) (int, error) {
-	t.writes++
+	if t.writes < 8 {
+		t.writes++ // saturating (an endlessly spinning sender stays in a finite state space)
+	}
 	if t.closed {
 		t.writesAfterClose++
 		return 0, zzErrClosed
@@ -90,7 +92,9 @@ func (t *zzTransport) Write(p []byte) (int, error) {
 }
 
 func (t *zzTransport) Writev(buffs transport.Buffers) (int64, error) {
-	t.writes++
+	if t.writes < 8 {
+		t.writes++ // saturating (an endlessly spinning sender stays in a finite state space)
+	}
 	if t.closed {
 		t.writesAfterClose++
 		return 0, zzErrClosed
@@ -126,7 +130,9 @@ func (t *zzTransport) Flush() error {
 		vrt.Yield()
 		t.inFlush = false
 	}
-	t.flushes++
+	if t.flushes < 8 {
+		t.flushes++ // saturating
+	}
 	if t.failFlushAt == t.flushes {
 		return t.writeErr
 	}
